@@ -727,10 +727,30 @@ pub fn oracle(f: u32, a: &Args, out: &Args) -> Option<(&'static str, String)> {
                     }
                 }
                 let cnt = out[5][0] as usize;
+                // C17: datagrams that are well-formed (a complete quarter stream id in range) but name
+                // another session are dropped silently -- they are no reason to end the connection
+                let all_well_formed = a[2..].iter().all(|d| match d.first() {
+                    Some(first) => {
+                        let n = 1usize << (first >> 6);
+                        d.len() >= n && {
+                            let mut q = first & 0x3f;
+                            for x in &d[1..n] { q = q << 8 | *x; }
+                            q <= (1 << 60) - 1
+                        }
+                    }
+                    None => false,
+                });
+                if all_well_formed && a.len() > 2 {
+                    if let Some(ch) = out.get(6 + cnt) {
+                        if ch.first() != Some(&TAG_PENDING) && !ch.is_empty() {
+                            return Some(("C17+C03", format!("every datagram the peer sent was well-formed (some for other sessions), yet the connection was closed: {:?}", ch)));
+                        }
+                    }
+                }
                 for g in &out[6..6 + cnt] {
                     match live.iter().position(|p| p == g) {
                         Some(p) => { live.remove(p); }
-                        None => return Some(("C17", format!("the application received a datagram {:?} that no datagram of session {} carried (foreign session or duplicate)", &g[..g.len().min(10)], sid))),
+                        None => return Some(("C17+C03", format!("the application received a datagram {:?} that is not the payload of any datagram the peer sent for session {} (foreign session, duplicate, or altered payload)", &g[..g.len().min(10)], sid))),
                     }
                 }
             }
